@@ -56,6 +56,10 @@ pub enum TOp {
     Spin(u8),
     /// create this thread's subscriber now (cases with `late_subs`), then read its value
     Subscribe,
+    /// write one fixed value that every thread may write (equal values from different threads)
+    SetConst,
+    /// `set_if_hash_not_eq` of that fixed value (for u64 the hashes differ exactly when the values do)
+    SetConstIfHashNotEq,
     /// clone an owner and drop the clone again, 4 * (n + 1) times (handle counts move while other
     /// threads write)
     CloneChurn(u8),
@@ -268,6 +272,9 @@ fn one_waker(case: &ThrCase) -> bool {
     case.threads.iter().map(|t| t.ops.len()).sum::<usize>() % 2 == 1
 }
 
+/// the value written by `SetConst` / `SetConstIfHashNotEq` (never produced by the per-thread unique values)
+pub const CONST_VALUE: u64 = 424_242;
+
 fn spin(n: u8) {
     for _ in 0..(n as u32 * 40) {
         std::hint::spin_loop();
@@ -335,6 +342,22 @@ impl ThreadCtx {
                 let res = t();
                 self.last_written = v;
                 self.recs.push(Rec { thread: self.tid, main: self.main_phase, kind: Kind::SetIfNotEq { v, prev }, inv, res });
+            }
+            TOp::SetConst => {
+                let Some(o) = self.owner() else { return };
+                let inv = t();
+                let prev = o.set(CONST_VALUE);
+                let res = t();
+                self.last_written = CONST_VALUE;
+                self.recs.push(Rec { thread: self.tid, main: self.main_phase, kind: Kind::Set { v: CONST_VALUE, prev }, inv, res });
+            }
+            TOp::SetConstIfHashNotEq => {
+                let Some(o) = self.owner() else { return };
+                let inv = t();
+                let prev = o.set_if_hash_not_eq(CONST_VALUE);
+                let res = t();
+                self.last_written = CONST_VALUE;
+                self.recs.push(Rec { thread: self.tid, main: self.main_phase, kind: Kind::SetIfNotEq { v: CONST_VALUE, prev }, inv, res });
             }
             TOp::Update(k) => {
                 let Some(o) = self.owner() else { return };
@@ -1251,6 +1274,8 @@ pub fn op(directed: bool) -> BoxedStrategy<TOp> {
             2 => n().prop_map(TOp::Spin),
             2 => Just(TOp::Subscribe),
             2 => (0u8..8).prop_map(TOp::CloneChurn),
+            1 => Just(TOp::SetConst),
+            1 => Just(TOp::SetConstIfHashNotEq),
         ]
         .boxed()
     }
